@@ -398,6 +398,7 @@ func propC11Prec(p c11Prec) hh.Verdict {
 	if c.Exec.Mode == "parse" {
 		in = c.Input.Go()
 	}
+	processPrelude() // recycled issues carry the texts of other tests and formatters
 	res := model.Run(schema, env, c.Exec, in, newDest(typ, c, false))
 	if res.Panic != nil {
 		return hh.Fail("panic: %v", res.Panic)
@@ -420,7 +421,7 @@ func propC11Prec(p c11Prec) hh.Verdict {
 		case d.Idx == -1:
 			o = d.Node.ReqOpts
 		}
-		if o != nil && (o.Msg != "" || o.MsgFunc != "") {
+		if o != nil && (o.Msg != "" || (o.MsgFunc != "" && o.MsgFunc != model.NoopMsgFunc)) {
 			msg = o.Msg + o.MsgFunc
 			nlevels++
 		}
@@ -568,6 +569,9 @@ func TestC11(t *testing.T) {
 					} else if o.Code != "" && n.Tests[i].Name != "func" && rapid.Bool().Draw(rt, "mf") {
 						k++
 						o.MsgFunc = fmt.Sprintf("F%d", k)
+						if rapid.IntRange(0, 3).Draw(rt, "noop") == 0 {
+							o.MsgFunc = model.NoopMsgFunc // a MessageFunc that sets nothing: the next level decides
+						}
 					}
 				}
 			})
